@@ -220,12 +220,17 @@ impl DebugInformation {
             ecx.location().global_pc.into(),
             EhFrame::cie_from_offset,
         )?;
-        self.evaluate_cfa(
-            debugee,
-            &DwarfRegisterMap::from(RegisterMap::current(ecx.pid_on_focus())?),
-            row,
-            ecx,
-        )
+        // the CFA rule of the selected frame applies to the registers of that frame, not to
+        // those of the innermost one
+        let mut registers = DwarfRegisterMap::from(RegisterMap::current(ecx.pid_on_focus())?);
+        if ecx.frame_num() > 0 {
+            debugee.restore_registers_at_frame(
+                ecx.pid_on_focus(),
+                &mut registers,
+                ecx.frame_num(),
+            )?;
+        }
+        self.evaluate_cfa(debugee, &registers, row, ecx)
     }
 
     pub fn debug_addr(&self) -> &DebugAddr<EndianArcSlice> {
